@@ -3,7 +3,7 @@
    (ModuleSpec.v) is the specification of the module API; real pyqasm is compared with it on call
    histories by harness/modcheck.py on every run. *)
 From Coq Require Import ZArith List Bool String.
-From Verif Require Import BGate PyVal Ast State Unroll Corr Spec Transforms TransformProofs ModuleSpec ModuleProofs.
+From Verif Require Import BGate PyVal Ast State Unroll Corr Spec Transforms TransformProofs ModuleSpec ModuleProofs FixProofs.
 Import ListNotations.
 Open Scope Z_scope.
 
@@ -64,3 +64,23 @@ Example C10_example :
   has_kind KMeas p = true /\ has_kind KMeas (remove_kind KMeas p) = false /\
   total_size (qregs_of (remove_idle p)) = 1.
 Proof. vm_compute. auto. Qed.
+
+(* ---- on the visitor model itself (Lang/FixProofs.v): the counts of a flat program ----
+   For every well-formed flat program (Props/C03.v), of any length and nesting: after validate() as after unroll() the
+   module's num_qubits / num_clbits are the sums of the sizes of the qubit / bit registers the program declares --
+   the counts "equal the total sizes of the registers of the module's current program" once that program is the
+   unrolled one -- and they are the same in both modes, so repeating validate() or unroll() on it cannot change them. *)
+Theorem C10_counts_of_a_flat_program_are_its_register_sizes fuel p :
+  wf_flat env0 p = true -> (ldepth p < fuel)%nat ->
+  (exists o, run_visit false true [] fuel p = Ok o /\
+             num_qubits (o_state o) = total_qubits p /\ num_clbits (o_state o) = total_clbits p) /\
+  (exists o, run_visit false false [] fuel p = Ok o /\ o_stmts o = p /\
+             num_qubits (o_state o) = total_qubits p /\ num_clbits (o_state o) = total_clbits p).
+Proof. exact (wf_flat_is_accepted_and_a_fixpoint fuel p). Qed.
+Print Assumptions C10_counts_of_a_flat_program_are_its_register_sizes.
+
+Example C10_counts_example :
+  let p := [SQubitDecl "q" (Some (ELit (VInt 3))); SClassicalDecl (TBit (Some (ELit (VInt 2)))) "c" None;
+            SQubitDecl "r" (Some (ELit (VInt 4))); SGate [] "h" [] [QIdx "r" [IdxList [IExpr (ELit (VInt 3))]]]]%string in
+  wf_flat env0 p = true /\ total_qubits p = 7 /\ total_clbits p = 2.
+Proof. vm_compute. repeat split; reflexivity. Qed.
